@@ -22,7 +22,7 @@
 size_t libwifi_add_action_detail(struct libwifi_action_detail *detail, const unsigned char *data,
                                  size_t data_len) {
     // Keep the existing detail if it cannot be extended
-    unsigned char *buf = NULL;
+    char *buf = NULL;
     if (detail->detail_length != 0) {
         buf = realloc(detail->detail, data_len + detail->detail_length);
     } else {
